@@ -282,6 +282,39 @@ def _query_class(q: str) -> str:
     return '+'.join(cls) or 'folded'
 
 
+def _visible(members, i, prefix):
+    res = {}
+    pf = _fold(prefix).strip('/')
+    for k, d in members[i].items():
+        if not pf:
+            res[k] = d
+        elif k.startswith(pf + '/'):
+            res[k[len(pf) + 1:]] = d
+    return res
+
+
+def _probe_chain(out: Outcome, chain, order, members, stage):
+    expect = {}
+    for i, prefix in order:
+        for k, d in _visible(members, i, prefix).items():
+            expect.setdefault(k, d)
+    for q in sorted(expect)[:12]:
+        spelled = q.upper() if stage % 2 else q
+        try:
+            with chain[spelled].open_bin() as fh:
+                got = fh.read()
+        except FileNotFoundError:
+            got = None
+        except Exception as exc:
+            out.violate('chain-priority', f'raised|{type(exc).__name__}', f'chain[{spelled!r}] raised {exc!r} while the chain was being built')
+            return
+        out.stats['chain_probes_between_adds'] += 1
+        if got != expect[q]:
+            out.violate('chain-priority', f'during-construction|{len(order)}-members',
+                        f'after {stage} add_sys calls chain[{spelled!r}] gives {got!r}, the first member that has it holds {expect[q]!r}; order {order}')
+            return
+
+
 def _check_chain(out: Outcome, fs: SimFS, case: dict):
     chain = FileSystemChain()
     order = []      # reference: list of (member index, prefix)
@@ -317,6 +350,9 @@ def _check_chain(out: Outcome, fs: SimFS, case: dict):
             order.insert(0, (i, prefix))
         else:
             order.append((i, prefix))
+        # the chain is used while it is being built (a lookup now must not pin an answer that a later member overrides)
+        if case.get('probe_between', True):
+            _probe_chain(out, chain, order, members, len(order))
     if len(order) >= 2:
         allnames = [set(x) for x in members]
         if any(allnames[a] & allnames[b] for a in range(len(allnames)) for b in range(a + 1, len(allnames))):
